@@ -1,5 +1,6 @@
 import SamVerif.Model.FmtFull
 import SamVerif.Model.FmtPat
+import SamVerif.Model.FmtLists
 import Driver.C08Legacy
 import Driver.Util
 /-! Protocol `fmt-expr` (C08), model side.
@@ -59,16 +60,23 @@ partial def lexWords : List Char → List String → Option (List String)
       | _, _ => none
 
 def isNum (s : String) : Bool := !s.isEmpty && s.toList.all Char.isDigit
+/-- the lexer's keywords (lexer.rs `LogosToken`); only `true`, `false`, `this` are expressions. -/
+def keywords : List String :=
+  ["import", "from", "class", "interface", "val", "function", "method", "as", "private", "protected",
+   "internal", "public", "if", "then", "else", "match", "return", "int", "string", "bool", "unit", "self",
+   "const", "let", "var", "type", "constructor", "destructor", "extends", "implements", "exports", "assert"]
+
 def isWordAtom (s : String) : Bool :=
-  !s.isEmpty && (s.toList.head!.isAlphanum || s.startsWith "-2") && s != "if" && s != "match" && s != "else"
-    && s != "let" && s != "as"
-def isLowerId (s : String) : Bool := !s.isEmpty && s.toList.head!.isLower && s.toList.all Char.isAlphanum
+  !s.isEmpty && (s.toList.head!.isAlphanum || s.startsWith "-2") && !keywords.contains s
+    && (!(s.toList.all Char.isDigit) || (s.toNat! ≤ 2147483647 && (s.length == 1 || !s.startsWith "0")))
+def isLowerId (s : String) : Bool :=
+  !s.isEmpty && s.toList.head!.isLower && s.toList.all Char.isAlphanum && !keywords.contains s && s != "true" && s != "false" && s != "this"
 def isUpperId (s : String) : Bool := !s.isEmpty && s.toList.head!.isUpper
 
 /-- `- 2147483648` → one word, through the model's `mergeMinInt`. -/
 def mergeWords (words : List String) : List String :=
   let raw : List RawTok := words.zipIdx.map fun (w, i) =>
-    if w == "-" then .minus else if isNum w then .int w.toNat! else .other i
+    if w == "-" then .minus else if isNum w && (w.length == 1 || !w.startsWith "0") then .int w.toNat! else .other i
   (mergeMinInt raw).map fun
     | .minus => "-"
     | .int n => toString n
@@ -95,6 +103,17 @@ def commaList (ok : String → Bool) : List String → Option (List String × Li
   | w :: ")" :: rest => if ok w then some ([w], rest) else none
   | w :: "," :: rest =>
     if ok w then (commaList ok rest).bind fun (ws, r) => if ws.isEmpty then none else some (w :: ws, r) else none
+  | _ => none
+
+/-- `x , y : T , z )` → lambda parameters (name, optional one-word type) up to the closing parenthesis. -/
+def lambdaParams : List String → Option (List (String × Option String) × List String)
+  | ")" :: rest => some ([], rest)
+  | w :: ":" :: t :: ")" :: rest => some ([(w, some t)], rest)
+  | w :: ")" :: rest => some ([(w, none)], rest)
+  | w :: ":" :: t :: "," :: rest =>
+    (lambdaParams rest).bind fun (ps, r) => if ps.isEmpty then none else some ((w, some t) :: ps, r)
+  | w :: "," :: rest =>
+    (lambdaParams rest).bind fun (ps, r) => if ps.isEmpty then none else some ((w, none) :: ps, r)
   | _ => none
 
 def isTypeWord (s : String) : Bool := s == "int" || s == "bool" || s == "unit" || isUpperId s
@@ -218,10 +237,14 @@ partial def group : List String → List Tok → Tab → Option (List Tok × Tab
     else if w == "}" then push .rb rest tab
     else if w == "," then push .comma rest tab
     else if w == "(" then
-      match commaList isLowerId rest with
+      match lambdaParams rest with
       | some (ps, "->" :: r) =>
-        let (tb, i) := intern tab ⟨"( " ++ " , ".intercalate ps ++ (if ps.isEmpty then ") ->" else " ) ->"),
-          "(lambda (params" ++ String.join (ps.map fun p => s!" ({p})") ++ ") ", ")"⟩
+        if !(ps.all fun (n, t) => isLowerId n && (t.map isTypeWord).getD true) then push .lp rest tab else
+        let ptxt := fun (p : String × Option String) => match p.2 with | some t => s!"{p.1} : {t}" | none => p.1
+        let pdmp := fun (p : String × Option String) => match p.2 with
+          | some t => s!" ({p.1} : {if isUpperId t then s!"(tid {t})" else t})" | none => s!" ({p.1})"
+        let (tb, i) := intern tab ⟨"( " ++ " , ".intercalate (ps.map ptxt) ++ (if ps.isEmpty then ") ->" else " ) ->"),
+          "(lambda (params" ++ String.join (ps.map pdmp) ++ ") ", ")"⟩
         push (.lam i) r tb
       | _ => push .lp rest tab
     else if w == "." then
@@ -338,6 +361,11 @@ def step (_ : Unit) (line : String) : Unit × String :=
   | ["E", _, h] => ((), stepE (textOfHex h))
   | ["S", _, h] => ((), stepS (textOfHex h))
   | ["P", _, h] => ((), stepP (textOfHex h))
+  | ["T", kind] =>
+    -- `trail` stream: the model's two tables for one list kind
+    match SamVerif.FmtLists.allKinds.find? (fun k => k.name == kind) with
+    | some k => ((), s!"accepts={if SamVerif.FmtLists.parserAcceptsTrailing k then 1 else 0} emits={if SamVerif.FmtLists.printerEmitsTrailing k then 1 else 0}")
+    | none => ((), "unknown-kind")
   | _ => ((), "bad-op")
 
 def run : IO Unit := runLoop () step
